@@ -45,6 +45,28 @@ func init() {
 	})
 }
 
+// monitorGlobal: the package-level variable of package monitor that holds the installed monitor (the one of interface type).
+func (m *Model) monitorGlobal() *ssa.Global {
+	sp := m.SSAPkg[modPath+"/internal/monitor"]
+	if sp == nil {
+		return nil
+	}
+	var out *ssa.Global
+	var names []string
+	for n := range sp.Members {
+		names = append(names, n)
+	}
+	sort.Strings(names)
+	for _, n := range names {
+		if g, ok := sp.Members[n].(*ssa.Global); ok && !strings.HasPrefix(n, "init$") {
+			if types.IsInterface(g.Type().(*types.Pointer).Elem()) && out == nil {
+				out = g
+			}
+		}
+	}
+	return out
+}
+
 func globName(g *ssa.Global) string { return shortPkg(g.Pkg.Pkg.Path()) + "." + g.Name() }
 
 func isNilOrZeroConst(v ssa.Value) bool {
@@ -168,13 +190,14 @@ func runGlob1(m *Model, r *RuleResult) {
 			}
 		})
 	}
+	monVar := m.monitorGlobal()
 	isMonGlobalLoad := func(v ssa.Value) bool {
 		u, ok := v.(*ssa.UnOp)
 		if !ok || u.Op != token.MUL {
 			return false
 		}
 		g, ok := u.X.(*ssa.Global)
-		return ok && g.Pkg.Pkg.Path() == monPkg && g.Name() == "m"
+		return ok && g == monVar
 	}
 	for _, v := range gvs {
 		key := shortPkg(v.pkg) + "." + v.name
@@ -247,7 +270,7 @@ func runGlob1(m *Model, r *RuleResult) {
 			stored := map[ssa.Value]bool{}
 			eachInstr(fn, func(in ssa.Instruction) {
 				if s, ok := in.(*ssa.Store); ok {
-					if gg, ok := s.Addr.(*ssa.Global); ok && gg.Name() == "m" && gg.Pkg.Pkg.Path() == monPkg {
+					if gg, ok := s.Addr.(*ssa.Global); ok && gg == monVar {
 						stored[s.Val] = true
 					}
 				}
@@ -589,6 +612,7 @@ func runOrd1(m *Model, r *RuleResult) {
 		})
 	}
 	// Reset clears all globals of package monitor under the m != nil guard only
+	monVar := m.monitorGlobal()
 	sp := m.SSAPkg[monPkg]
 	var names []string
 	for n, mem := range sp.Members {
@@ -621,7 +645,7 @@ func runOrd1(m *Model, r *RuleResult) {
 			good := false
 			if ok && ((bo.Op == token.NEQ && d.Branch == 0) || (bo.Op == token.EQL && d.Branch == 1)) {
 				if u, ok := bo.X.(*ssa.UnOp); ok && u.Op == token.MUL {
-					if gg, ok := u.X.(*ssa.Global); ok && gg.Name() == "m" {
+					if gg, ok := u.X.(*ssa.Global); ok && gg == monVar {
 						if c, ok := bo.Y.(*ssa.Const); ok && c.Value == nil {
 							good = true
 						}
